@@ -277,6 +277,72 @@ edits["R22-defragmax-compact"] = [("stack.go", """	var _m int = 50
 	return 50
 }""")]
 edits["R23-index-found-flag-spelling"] = [("stack.go", """			ok = slice != nil""", """			ok = !(slice == nil)""")]
+
+edits["R24-front-back-downward-ge-zero"] = [("stack.go", """		for i := r.Len(); i > 0; i-- {
+			if slice, ok = r.Index(i - 1); ok {
+				break
+			}
+		}
+	}
+
+	return
+}
+
+/*
+Back returns""", """		for i := r.Len() - 1; i >= 0; i-- {
+			if slice, ok = r.Index(i); ok {
+				break
+			}
+		}
+	}
+
+	return
+}
+
+/*
+Back returns""")]
+edits["R25-isempty-one-expression"] = [("stack.go", """	if r.IsInit() {
+		return r.Len() == 0
+	}
+
+	return true
+}""", """	return !r.IsInit() || r.Len() == 0
+}""")]
+edits["R26-replace-guard-clause"] = [("stack.go", """	if r != nil {
+		if ok = 0 <= i && i < r.ulen(); ok {
+			(*r)[i+1] = x
+		}
+	}
+
+	return
+}""", """	if r == nil || i < 0 || i >= r.ulen() {
+		return false
+	}
+	(*r)[i+1] = x
+
+	return true
+}""")]
+edits["R27-reveal-nilptr-break"] = [("stack.go", """			if assert, ok := child.(Interface); ok && !isNilPtr(child) {
+				if !assert.IsParen() && !inner.IsParen() {""", """			if isNilPtr(child) {
+				break
+			}
+			if assert, ok := child.(Interface); ok {
+				if !assert.IsParen() && !inner.IsParen() {""")]
+edits["R28-derefptr-for-condition"] = [("misc.go", """	for {
+		// only follow a pointer that actually points
+		// somewhere; a nil pointer is left as it is.
+		if isPtr(t) && v.Kind() == reflect.Ptr && !v.IsNil() {
+			t = t.Elem()
+			v = v.Elem()
+			continue
+		}
+		break
+	}""", """	// only follow a pointer that actually points
+	// somewhere; a nil pointer is left as it is.
+	for isPtr(t) && v.Kind() == reflect.Ptr && !v.IsNil() {
+		t = t.Elem()
+		v = v.Elem()
+	}""")]
 name = sys.argv[1]
 os.makedirs("/var/tmp/rfgen", exist_ok=True)
 A, B = "/var/tmp/rfgen/a", "/var/tmp/rfgen/b"
